@@ -18,6 +18,7 @@ import PgProofs.C05Handles
 import PgProofs.C05Dna
 import PgProofs.C05Opts
 import PgProofs.C05Auto
+import PgProofs.C05SpecRT
 namespace Pg.C05
 
 /-! ## T-SIG: value specs can be rebuilt from what `to_json` emits -/
@@ -265,6 +266,55 @@ theorem C05_key_codec_counterexample :
     encKey (.s "n_:5".toList) = encKey (.i 5) ∧ Key.s "n_:5".toList ≠ Key.i 5 := by
   refine ⟨?_, by decide⟩
   simp [encKey, intKeyPrefix, reprInt, natDigits, digitChar]
+
+/-! ## pg.typing value specs, fields, key specs, schemas -/
+
+/-- ROUND TRIP for value specs, by mutual structural induction over specs / element lists /
+fields / schemas: for every well-formed spec state (`VSOK`: defaults, enum values and metadata are
+plain encodable values; the derived bits are what the constructors compute) of any nesting depth —
+Any Bool Int Float Str Enum List Tuple (fixed / variable) Dict (schema-less / with schema) Object
+Type Union Callable, with noneable / default / frozen / ranges / regex / sizes —
+`from_json(to_json(spec))` rebuilds the same state. `to_json` is
+`to_json_dict(exclude_default=True)` per class; loading decodes the children first and then calls
+`cls(**kwargs)`. -/
+theorem C05_spec_roundtrip (env : ClassEnv) (s : VS) (h : VSOK s = true) :
+    specFromJson (vsToJson env s) = .ok s := by
+  simp only [specFromJson, vs_rt env s h]
+
+/-- … the same for a `Schema` (class schemas included: name, `allow_nonconst_keys`, metadata), a
+`Field` (description, metadata) and every key spec (ConstStrKey, StrKey, ListKey, TupleKey). -/
+theorem C05_schema_roundtrip (env : ClassEnv) (sc : VSchema) (h : schemaOK sc = true) :
+    decodeU (schemaToJson env sc) = .ok (.schema sc) := schema_rt env sc h
+
+theorem C05_field_roundtrip (env : ClassEnv) (f : VField) (h : fieldOK f = true) :
+    decodeU (fieldToJson env f) = .ok (.field f) := field_rt env f h
+
+theorem C05_keyspec_roundtrip (k : VKey) : decodeU (keyToJson k) = .ok (.key k) := key_rt k
+
+/-- "Every spec state loads back" … -/
+def C05_spec_Full : Prop := ∀ (env : ClassEnv) (s : VS), specFromJson (vsToJson env s) = .ok s
+
+/-- … is false (F230): `Tuple(spec, max_size=0)` is a fixed tuple of zero elements, written as
+`element_values: []`, which `Tuple.__init__` rejects (ValueError). -/
+theorem C05_spec_counterexample : ¬ C05_spec_Full := by
+  intro h
+  have := h noClasses (.tupleFixed [] ⟨false, none, false⟩)
+  have e : specFromJson (vsToJson noClasses (.tupleFixed [] ⟨false, none, false⟩)) = .error .value := by
+    simp (decide := true) [specFromJson, vsToJson, vsToJsonL, dE, oE, fE, decodeU, finishObj, finishArr, decodeUKV,
+      decodeUL, jlookup, buildU_Tuple, buildTuple, keysIn, gFlags, gPlain, gBool, gOptInt, ulookup, List.filter, uSpecs]
+  rw [e] at this
+  cases this
+
+/-- Non-vacuity: `Dict([('a', List(Int(min_value=0, default=1), max_size=3)), (StrKey('k.*'),
+Union([Str(regex='a.*').noneable(), Enum(None, [None, 'x'])]))])` is well formed. -/
+example : VSOK (.dict (some (.mk
+    [.mk (.const ['a']) (.list (.int (some 0) none ⟨false, some (.leaf (.int 1)), false⟩) 0 (some 3) ⟨false, none, false⟩) none none,
+     .mk (.strKey (some "k.*".toList))
+       (.union [.str (some "a.*".toList) ⟨true, some (.leaf .none), false⟩,
+                .enum [.leaf .none, .leaf (.str ['x'])] ⟨true, some (.leaf .none), false⟩] ⟨false, none, false⟩) none none]
+    none true none)) false ⟨false, none, false⟩) = true := by
+  simp [VSOK, VSOKL, schemaOK, fieldsOK, fieldOK, flagsOK, optPlainOK, plainOK, plainOKL, isNoneLeaf,
+    startsWithTupleMarker]
 
 /-! ## `pg.DNA` (compact JSON form, root metadata) -/
 
